@@ -12,7 +12,10 @@ import time
 VERIF = os.path.dirname(os.path.dirname(os.path.abspath(__file__)))
 REPO = os.environ.get("VERIF_REPO", "/repo")
 CACHE = os.path.join(VERIF, ".cache")
-GEN = os.path.join(CACHE, "gen")
+# VERIF_OUT redirects everything a run writes except the shared result cache (used by
+# tools/seedmatrix.py to run several scratch trees side by side); default: /verif itself
+OUT = os.environ.get("VERIF_OUT", VERIF)
+GEN = os.path.join(OUT, ".cache", "gen")
 VX = os.path.join(VERIF, "tools", "vx", "target", "release", "vx")
 OB_RE = re.compile(r"/\*@ob ([A-Za-z0-9_.,\- ]+?)\*/")
 
